@@ -414,8 +414,8 @@ inductive PwfOutcome | bad | res (r : Except PyErr (Option (ADT × Period)))
 /-- outcome of one format of `parse_with_formats` -/
 inductive PwfStep | bad | skip | err (e : PyErr) | hit (v : ADT × Period)
 
-/-- completion of the parts a format cannot express, then the zone settings -/
-def pwfComplete (st : Settings) (f : String) (t : DT) : Except PyErr (ADT × Period) := do
+/-- completion of the parts a format cannot express (not guarded by any `try`) -/
+def pwfComplete (st : Settings) (f : String) (t : DT) : Except PyErr (DT × Period) := do
   let missingMonth := !(hasSub f "%m" || hasSub f "%b" || hasSub f "%B")
   let missingDay := !hasSub f "%d"
   let mut t := t
@@ -427,8 +427,7 @@ def pwfComplete (st : Settings) (f : String) (t : DT) : Except PyErr (ADT × Per
   else if missingDay then
     period := .month; t ← setDay st.preferDay t st.today.d
   if !(hasSub f "%y" || hasSub f "%Y") then t ← t.replaceYear st.today.y
-  let x ← applyTzFromSettings st t
-  return (x, period)
+  return (t, period)
 
 /-- strictness as `parse_with_formats` applies it (only if the source calls `_check_strict_parsing` there) -/
 def pwfStrictOk (st : Settings) (f : String) : Bool :=
@@ -439,14 +438,16 @@ def pwfStrictOk (st : Settings) (f : String) : Bool :=
 def pwfOne (st : Settings) (s : String) (f : String) : PwfStep :=
   match strptimeC s.toList f.toList true with
   | .bad => .bad
-  | .err e => if caughtBy Gen.exceptParseWithFormats e then .skip else .err e
+  | .err e => if caughtBy Gen.exceptPwfStrptime e then .skip else .err e
   | .ok t =>
     if !pwfStrictOk st f then .skip else
     match pwfComplete st f t with
-    | .ok v => .hit v
-    | .error e =>
-      -- a second `except` in parse_with_formats (after the repair) guards the zone application
-      if (Gen.exceptParseWithFormats.drop 1).any (fun names => names.any (fun c => classCatches c e)) then .skip else .err e
+    | .error e => .err e
+    | .ok (t, period) =>
+      -- the zone settings, under the `try` the source puts around `apply_timezone_from_settings` (if any)
+      match applyTzFromSettings st t with
+      | .ok x => .hit (x, period)
+      | .error e => if caughtBy Gen.exceptPwfZone e then .skip else .err e
 
 def parseWithFormats (st : Settings) (s : String) : List String → PwfOutcome
   | [] => .res (.ok none)
